@@ -16,5 +16,6 @@ type scriptAnnotation struct {
 type grogAnnotation struct {
 	scriptAnnotation `yaml:",inline"`
 	// script annotations cannot have outputs
-	Outputs []string `yaml:"outputs"`
+	Outputs       []string `yaml:"outputs"`
+	ExcludeInputs []string `yaml:"exclude_inputs"`
 }
